@@ -8,16 +8,17 @@
 (*            and every accepted non-broadcast shape whose element count overflows) *)
 (*   P_inj    accepted /\ mutable storage => the layout is injective              *)
 (*            (flagged only when non-injectivity is certain, see Overlap.tla)     *)
-(* Signature reason: "arithmetic_wrapped" if the transcribed acceptance test      *)
-(* rejects in exact arithmetic but accepts with wrapping 64-bit arithmetic (so      *)
-(* wrap-around explains the acceptance), "logic" if it accepts even in exact        *)
-(* arithmetic, "unexplained_accept" if neither transcription accepts.               *)
-(* DRIFT (not a violation): the real outcome differs from the transcription        *)
-(* evaluated with wrapping 64-bit arithmetic; or an accepted layout is Safe but     *)
-(* its element count PROD rshape overflows 64 bits (only possible for broadcasting   *)
-(* strides such as shape [2^63, 3], strides [0, 1]: every offset is in bounds, so    *)
-(* the weakest reading of the statement does not make this a violation, although     *)
-(* len() then reports a wrapped count).                                              *)
+(* Signature reason: "logic" if the transcribed acceptance test accepts even in     *)
+(* exact arithmetic; "arithmetic_wrapped" if only the WRAPPING transcription (the     *)
+(* code before the repair) accepts - a regression of that defect; otherwise            *)
+(* "unexplained_accept".                                                              *)
+(* DRIFT (not a violation): the real outcome differs from the transcription of the    *)
+(* CURRENT code (checked 64-bit arithmetic).                                          *)
+(* Counted only (STAT safe_count_overflow): an accepted layout that is Safe although    *)
+(* its element count PROD rshape overflows 64 bits - only possible for broadcasting     *)
+(* strides such as shape [2^63, 3], strides [0, 1]: every offset is in bounds, so the   *)
+(* weakest reading of the statement does not make this a violation (len() reports a     *)
+(* wrapped count); code and transcription agree on accepting it.                        *)
 EXTENDS TraceLib, Construct
 
 VARIABLES l, nbad, ndrift, ncase, nrun, nacc, nund
@@ -51,24 +52,25 @@ Drift(dr, ok, sig, rec) ==
 \* two stride vectors an accepted tensor can report (contiguous / as submitted).
 Fams == <<"from_data", "from_data_with_strides", "from_slice_with_strides", "from_storage_and_layout">>
 Table(k) ==
-  LET cs == ContigStridesW(k.shapeW, TRUE) IN
+  LET cs == ContigStridesW(k.shapeW, TRUE) IN   \* (wrapping: what the code computes)
   TLCEval([i \in 1..Len(k.lens) |->
     LET len == FromNat(k.lens[i]) IN
-    [wrapm  |-> [f \in 1..4 |-> IF f > 1 /\ ~k.strided THEN FALSE ELSE AcceptFam(k, Fams[f], TRUE, len, TRUE)],
-     wrapi  |-> [f \in 1..4 |-> IF f > 1 /\ ~k.strided THEN FALSE ELSE AcceptFam(k, Fams[f], FALSE, len, TRUE)],
-     exactm |-> [f \in 1..4 |-> IF f > 1 /\ ~k.strided THEN FALSE ELSE AcceptFam(k, Fams[f], TRUE, len, FALSE)],
-     exacti |-> [f \in 1..4 |-> IF f > 1 /\ ~k.strided THEN FALSE ELSE AcceptFam(k, Fams[f], FALSE, len, FALSE)],
+    [wrapm  |-> [f \in 1..4 |-> IF f > 1 /\ ~k.strided THEN FALSE ELSE AcceptFam(k, Fams[f], TRUE, len, "checked")],
+     wrapi  |-> [f \in 1..4 |-> IF f > 1 /\ ~k.strided THEN FALSE ELSE AcceptFam(k, Fams[f], FALSE, len, "checked")],
+     exactm |-> [f \in 1..4 |-> IF f > 1 /\ ~k.strided THEN FALSE ELSE AcceptFam(k, Fams[f], TRUE, len, "exact")],
+     exacti |-> [f \in 1..4 |-> IF f > 1 /\ ~k.strided THEN FALSE ELSE AcceptFam(k, Fams[f], FALSE, len, "exact")],
      safec  |-> SafeW(k.shapeW, cs, len),
      safes  |-> IF k.strided THEN SafeW(k.shapeW, k.stridesW, len) ELSE FALSE]])
 FamIx(fam) == CHOOSE f \in 1..4 : Fams[f] = fam
 LenIx(k, n) == IF \E i \in 1..Len(k.lens) : k.lens[i] = n
                THEN CHOOSE i \in 1..Len(k.lens) : k.lens[i] = n ELSE 0
 
-\* verdicts for one run r of vector k (tab = Table(k), cs = contiguous strides, injc/injs = injectivity verdicts)
-Want(k, tab, r, wrap) ==
+\* verdicts for one run r of vector k (tab = Table(k), cs = contiguous strides, injc/injs = injectivity verdicts);
+\* cur = TRUE: the current (checked) code, FALSE: exact arithmetic
+Want(k, tab, r, cur) ==
   LET i == LenIx(k, r.len)  f == FamIx(Family(r.ctor)) IN
-  IF i = 0 THEN AcceptFam(k, Family(r.ctor), r.mutable, FromNat(r.len), wrap)
-  ELSE IF wrap THEN (IF r.mutable THEN tab[i].wrapm[f] ELSE tab[i].wrapi[f])
+  IF i = 0 THEN AcceptFam(k, Family(r.ctor), r.mutable, FromNat(r.len), IF cur THEN "checked" ELSE "exact")
+  ELSE IF cur THEN (IF r.mutable THEN tab[i].wrapm[f] ELSE tab[i].wrapi[f])
   ELSE (IF r.mutable THEN tab[i].exactm[f] ELSE tab[i].exacti[f])
 SafeOf(k, tab, cs, r) ==
   LET i == LenIx(k, r.rstorage) IN
@@ -86,7 +88,8 @@ JudgeOne(bad, k, tab, cs, injc, injs, r) ==
     LET safe == SafeOf(k, tab, cs, r)
         inj == IF r.mutable /\ safe THEN InjOf(k, cs, injc, injs, r) ELSE "yes"
         reason == IF Want(k, tab, r, FALSE) THEN "logic"
-                  ELSE IF Want(k, tab, r, TRUE) THEN "arithmetic_wrapped" ELSE "unexplained_accept"
+                  ELSE IF AcceptFam(k, Family(r.ctor), r.mutable, FromNat(r.len), "wrap")
+                  THEN "arithmetic_wrapped" ELSE "unexplained_accept"
         rec == [case |-> [class |-> k.class, shapeW |-> k.shapeW, stridesW |-> k.stridesW], run |-> r]
         b1 == IF safe THEN bad
               ELSE Flag(bad, FALSE, [kind |-> "unsafe_accept", ctor |-> Family(r.ctor), reason |-> reason], rec)
@@ -97,10 +100,11 @@ DriftOne(dr, k, tab, cs, r) ==
   LET want == Want(k, tab, r, TRUE)
       got == r.outcome = "ok"
       rec == [case |-> [class |-> k.class, shapeW |-> k.shapeW, stridesW |-> k.stridesW], run |-> r]
-      d1 == Drift(dr, want = got, [kind |-> "outcome", ctor |-> r.ctor, transcription |-> want, real |-> r.outcome], rec)
-  IN IF got /\ SafeOf(k, tab, cs, r) /\ ~CountFitsW(r.rshapeW)
-     THEN Drift(d1, FALSE, [kind |-> "count_overflow_but_safe", ctor |-> Family(r.ctor)], rec)
-     ELSE d1
+  IN Drift(dr, want = got, [kind |-> "outcome", ctor |-> r.ctor, transcription |-> want, real |-> r.outcome], rec)
+SafeOverflowCount(k, tab, cs) ==
+  Cardinality({i \in 1..Len(k.runs) : /\ k.runs[i].outcome = "ok"
+                                       /\ ~CountFitsW(k.runs[i].rshapeW)
+                                       /\ SafeOf(k, tab, cs, k.runs[i])})
 
 RECURSIVE JudgeAll(_, _, _, _, _, _, _)
 JudgeAll(bad, k, tab, cs, injc, injs, i) ==
@@ -116,15 +120,15 @@ Case == /\ e.ev = "case"
            \E injs \in {IF k.strided THEN InjectiveW(k.shapeW, k.stridesW) ELSE "yes"} :
              /\ nbad' = JudgeAll(nbad, k, tab, cs, injc, injs, 1)
              /\ ndrift' = DriftAll(ndrift, k, tab, cs, 1)
+             /\ nund' = nund + (IF CountFitsW(k.shapeW) THEN 0 ELSE SafeOverflowCount(k, tab, cs))
              /\ nrun' = nrun + Len(k.runs)
              /\ nacc' = nacc + Cardinality({i \in 1..Len(k.runs) : k.runs[i].outcome = "ok"})
         /\ ncase' = ncase + 1
-        /\ UNCHANGED nund
 
 Next == /\ l <= NRec /\ l' = l + 1 /\ Case
 
 Report == l = NRec + 1 =>
             /\ ReportBad(nbad)
             /\ \A s \in DOMAIN ndrift : Print(<<"DRIFTSIG", ToJson(s), ndrift[s]>>, TRUE)
-            /\ Stat("cases", ncase) /\ Stat("runs", nrun) /\ Stat("accepted", nacc)
+            /\ Stat("cases", ncase) /\ Stat("runs", nrun) /\ Stat("accepted", nacc) /\ Stat("safe_count_overflow", nund)
 =============================================================================
